@@ -65,7 +65,12 @@ def mc_case(draw):
     scn["mu"] = draw(fl(-0.5, 0.5))
     scn["max_cycles"] = draw(st.integers(1, 4))
     scn["n_exchange"] = max(scn.get("n_exchange", 0), 1)
-    scn["table"] = [[draw(st.integers(1, 3)), draw(fl(0.1, 3.0)), 0] for _ in scn["entries"]]
+    budget = scn["max_cycles"]
+    scn["table"] = []
+    for _ in scn["entries"]:
+        mn = draw(st.integers(0, min(2, budget)))  # forced slots are scheduled with the simulation's generator too
+        budget -= mn
+        scn["table"].append([draw(st.integers(1, 3)), draw(fl(0.1, 3.0)), mn])
     scn["table"][0][0] = 1
     scn["calc"] = "fast"
     scn["names"] = list(draw(st.permutations(["zeta", "alpha", "mid", "beta"])))
@@ -209,19 +214,123 @@ def run_fb(case):
     return compare_runs(run_fb_once, case, case["seed"], labels, key)
 
 
+# ------------------------------------------------------------------ another interpreter, another string-hash seed
+CHILD = r"""
+import sys, json, hashlib
+sys.path.insert(0, sys.argv[2])
+import props.c06 as m
+out = []
+for case in json.load(open(sys.argv[1])):
+    out.append(m.digest_of(case))
+print("DIGESTS " + json.dumps(out))
+"""
+
+
+def digest_of(case):
+    import hashlib
+
+    try:
+        recs, text = run_mc_once(case, case["scn"]["seed"], case["g1"], False)
+    except Exception as exc:
+        return "ERR:" + type(exc).__name__
+    h = hashlib.sha256()
+    for r in recs:
+        for x in r:
+            h.update(x if isinstance(x, bytes) else str(x).encode())
+    h.update(text.encode())
+    return h.hexdigest()
+
+
+def run_hashseed(seed, budget):
+    import json as _json
+    import os
+    import subprocess
+    import sys
+    import tempfile
+
+    from vlib.runner import ROOT, empty_result, jsonable
+
+    cases = []
+
+    def collect(case):
+        cases.append(jsonable(case))
+        return {"labels": ["generated"], "nontrivial": False, "violation": None, "discard": True}
+
+    hyp.search(mc_case(), collect, budget["n_examples"], seed, "hashseed", shrink=False, skip_zero=True)
+    res = empty_result()
+    here = [digest_of(c) for c in cases]
+    fd, path = tempfile.mkstemp(prefix="c06_", suffix=".json")
+    os.close(fd)
+    try:
+        _json.dump(cases, open(path, "w"))
+        env = dict(os.environ, PYTHONHASHSEED=str(1 + seed % 4000000000))
+        cp = subprocess.run([sys.executable, "-c", CHILD, path, ROOT], env=env, capture_output=True, text=True, timeout=1800)
+    finally:
+        os.remove(path)
+    line = next((l for l in cp.stdout.splitlines() if l.startswith("DIGESTS ")), None)
+    if line is None:
+        res["notes"].append("hashseed: child interpreter produced no digests: " + cp.stderr[-300:])
+        return res
+    there = _json.loads(line[8:])
+    keys = []
+    for c, a, b in zip(cases, here, there):
+        res["evaluations"] += 1
+        res["classes"]["hashseed:" + c["scn"]["ensemble"]] = res["classes"].get("hashseed:" + c["scn"]["ensemble"], 0) + 1
+        if a.startswith("ERR") or b.startswith("ERR"):
+            continue
+        if len(c["scn"]["entries"]) >= 2:
+            keys.append("hashseed|" + a[:12])
+        if a != b:
+            res["violations"].append({"part": "hashseed", "kind": "same-seed-differs:other-interpreter", "case": c,
+                                      "detail": f"seed {c['scn']['seed']}: the same configuration run in a fresh interpreter with another PYTHONHASHSEED gives a different trajectory/log ({c['scn']['ensemble']}, {len(c['scn']['entries'])} table entries)"})
+            break
+    res["nontrivial_keys"] = keys
+    if cases:
+        res["samples"].append({"part": "hashseed", "labels": ["hashseed"], "case": {"ensemble": cases[0]["scn"]["ensemble"], "names": cases[0]["scn"].get("names"), "table": cases[0]["scn"].get("table")}})
+    return res
+
+
+def replay_hashseed(case):
+    import json as _json
+    import os
+    import subprocess
+    import sys
+    import tempfile
+
+    from vlib.runner import ROOT
+
+    a = digest_of(case)
+    fd, path = tempfile.mkstemp(prefix="c06_", suffix=".json")
+    os.close(fd)
+    try:
+        _json.dump([case], open(path, "w"))
+        cp = subprocess.run([sys.executable, "-c", CHILD, path, ROOT], env=dict(os.environ, PYTHONHASHSEED="4242"), capture_output=True, text=True, timeout=600)
+    finally:
+        os.remove(path)
+    line = next((l for l in cp.stdout.splitlines() if l.startswith("DIGESTS ")), None)
+    b = _json.loads(line[8:])[0] if line else "ERR:nochild"
+    if a != b and not a.startswith("ERR") and not b.startswith("ERR"):
+        return {"violation": {"kind": "same-seed-differs:other-interpreter", "detail": "digest differs in a fresh interpreter with another PYTHONHASHSEED"}}
+    return {"violation": None}
+
+
 PARTS = {"mc": (mc_case, run_mc), "fbmc": (fb_case, run_fb)}
 
 
 def plan(tier):
     if tier == "quick":
-        return [{"part": "mc", "shards": 12, "budget": {"n_examples": 60}}, {"part": "fbmc", "shards": 4, "budget": {"n_examples": 80}}]
-    return [{"part": "mc", "shards": 12, "budget": {"n_examples": 1500}}, {"part": "fbmc", "shards": 4, "budget": {"n_examples": 1500}}]
+        return [{"part": "mc", "shards": 11, "budget": {"n_examples": 60}}, {"part": "fbmc", "shards": 3, "budget": {"n_examples": 80}}, {"part": "hashseed", "shards": 2, "budget": {"n_examples": 40}}]
+    return [{"part": "mc", "shards": 11, "budget": {"n_examples": 1500}}, {"part": "fbmc", "shards": 3, "budget": {"n_examples": 1500}}, {"part": "hashseed", "shards": 2, "budget": {"n_examples": 600}}]
 
 
 def run_part(part, seed, shard, nshards, budget):
+    if part == "hashseed":
+        return run_hashseed(seed, budget)
     strat, fn = PARTS[part]
     return hyp.search(strat(), fn, budget["n_examples"], seed, part)
 
 
 def replay(part, case):
+    if part == "hashseed":
+        return replay_hashseed(case)
     return PARTS[part][1](case)
